@@ -13,6 +13,7 @@ specification) decides whether the buffer is a valid stream (oracle (a)) or not 
 """
 import struct
 import sys
+import types
 
 from mc.core import Acc, h8
 from mc.budget import BudgetExceeded, TOOL
@@ -134,13 +135,36 @@ class StubCM:
         return False
 
 
+def _code_objects(mod, skip=()):
+    out = []
+
+    def walk(co):
+        out.append(co)
+        for c in co.co_consts:
+            if isinstance(c, types.CodeType):
+                walk(c)
+    for obj in vars(mod).values():
+        if isinstance(obj, types.FunctionType) and obj.__module__ == mod.__name__:
+            walk(obj.__code__)
+        elif isinstance(obj, type) and obj.__module__ == mod.__name__ and obj.__name__ not in skip:
+            for f in vars(obj).values():
+                f = getattr(f, "__func__", f)
+                if isinstance(f, types.FunctionType):
+                    walk(f.__code__)
+                elif isinstance(f, property) and f.fget:
+                    walk(f.fget.__code__)
+    return out
+
+
 class BudgetSession:
-    """mc/budget.py's event budget (PY_START + JUMP + BRANCH events, BudgetExceeded) with the instrumentation switched
-    on once per shard instead of once per case: re-instrumenting for each of ~3 M buffers costs far more than the
-    sweeps themselves.  Same events, same exception, same verdicts; only the counter is reset per case."""
+    """mc/budget.py's event budget (PY_START + JUMP + BRANCH events, BudgetExceeded), switched on once per shard and
+    only for the code under test: every function and method of androguard.core.dex except class DCode (the budget is
+    armed during the sweep only; DCode's own loops run over the finished list).  Instrumenting globally per case, as
+    mc.budget.run_with_budget does, costs several times more than the ~3 M sweeps themselves.  Same events, same
+    exception, same verdicts; the counter is reset per case."""
     OFF = 1 << 62
 
-    def __init__(self):
+    def __init__(self, dex):
         mon = sys.monitoring
         ev = mon.events
         try:
@@ -150,9 +174,17 @@ class BudgetSession:
             mon.use_tool_id(TOOL, "verif-budget")
         self.count = 0
         self.limit = self.OFF
+        self.mask = ev.PY_START | ev.JUMP | ev.BRANCH
         for e in (ev.PY_START, ev.JUMP, ev.BRANCH):
             mon.register_callback(TOOL, e, self._tick)
-        mon.set_events(TOOL, ev.PY_START | ev.JUMP | ev.BRANCH)
+        self.cos = _code_objects(dex, skip=("DCode",))
+        for co in self.cos:
+            mon.set_local_events(TOOL, co, self.mask)
+
+    def watch(self, fn):
+        """additionally count events in fn (self-test)"""
+        self.cos.append(fn.__code__)
+        sys.monitoring.set_local_events(TOOL, fn.__code__, self.mask)
 
     def _tick(self, *_a):
         self.count += 1
@@ -177,7 +209,8 @@ class BudgetSession:
     def close(self):
         mon = sys.monitoring
         ev = mon.events
-        mon.set_events(TOOL, 0)
+        for co in self.cos:
+            mon.set_local_events(TOOL, co, 0)
         for e in (ev.PY_START, ev.JUMP, ev.BRANCH):
             mon.register_callback(TOOL, e, None)
         mon.free_tool_id(TOOL)
@@ -189,8 +222,7 @@ class Env:
         self.dex = dex
         self.cm = StubCM(dex)
         self.Invalid = dex.InvalidInstruction
-        self.budget = BudgetSession()
-        self.max_events = 0
+        self.budget = BudgetSession(dex)
 
     def close(self):
         self.budget.close()
@@ -218,8 +250,6 @@ def judge(env, buf, size):
             got.append(ins)
 
     status, val, events = env.budget.run(sweep, BUDGET0 + BUDGET1 * n)
-    if events - BUDGET1 * n // 8 > env.max_events:
-        env.max_events = events - BUDGET1 * n // 8
     v = []
     # ---- oracle (b): holds for every buffer
     off = 0
@@ -542,16 +572,22 @@ def finalize(ctx, acc):
     if not acc.extra.get("fault_substitutions") or not acc.extra.get("fault_truncations"):
         acc.harness_error("fault half empty")
     # the budget mechanism itself must be live: a loop that never ends has to be cut
-    b = BudgetSession()
+    env = Env()
 
     def forever():
         i = 0
         while True:
             i += 1
-    st, _, ev = b.run(forever, 5000)
-    st2, _, ev2 = b.run(lambda: sum(range(10)), 5000)
-    b.close()
-    if st != "budget" or st2 != "ok":
-        acc.harness_error("budget self-test failed: endless loop -> %r after %d events, trivial call -> %r" % (st, ev, st2))
+    env.budget.watch(forever)
+    st, _, ev = env.budget.run(forever, 5000)
+    # ... and the events of a real sweep must be counted (200 nops -> at least 200 constructor entries)
+    got = []
+    st2, _, ev2 = env.budget.run(lambda: got.extend(env.dex.LinearSweepAlgorithm.get_instructions(env.cm, 200, bytes(400), 0)), 100000)
+    st3, _, ev3 = env.budget.run(lambda: list(env.dex.LinearSweepAlgorithm.get_instructions(env.cm, 200, bytes(400), 0)), 150)
+    env.close()
+    if st != "budget" or st2 != "ok" or len(got) != 200 or ev2 < 400 or st3 != "budget":
+        acc.harness_error("budget self-test failed: endless loop -> %r after %d events; 200-nop sweep -> %r, %d events, "
+                          "%d instructions; same sweep under 150 events -> %r" % (st, ev, st2, ev2, len(got), st3))
+    acc.count("budget_selftest_events_200_nops", ev2)
     if len(acc.outcomes) < 40:
         acc.harness_error("vacuous: only %d distinct (status, #instructions, input class) outcomes" % len(acc.outcomes))
